@@ -220,6 +220,14 @@ class OpGen:
                 op = [7, x, [self.fresh_str()]]
             elif rng.random() < 0.05:
                 op = [7, x, [[0, x]]]
+            elif rng.random() < 0.08:
+                # the replaced element is itself one of several replacements: x.replace_with(a, x) keeps x, next to a
+                others = pick_args(r.P[x], exclude=(x,))
+                if others and not (len(others) == 1 and others[0] == [0, x]):
+                    k = rng.randint(0, len(others))
+                    op = [7, x, others[:k] + [[0, x]] + others[k:]]
+                else:
+                    op = [7, x, [[0, x]]]
             else:
                 op = [7, x, pick_args(r.P[x], exclude=(x,))]
         elif c == 8:
@@ -302,6 +310,7 @@ class OpGen:
                 ops.append([4, x, [[1, "nA"]]]); ops.append([5, x, [[1, "nA"]]]); ops.append([7, x, [[1, "nA"]]])
                 continue
             ops.append([7, x, [[0, x]]])
+            ops.append([7, x, [[1, "nA"], [0, x]]]); ops.append([7, x, [[0, x], [1, "nA"]]])
             for args in arg_tuples(r.P[x], exclude=(x,)):
                 ops.append([4, x, args]); ops.append([5, x, args]); ops.append([7, x, args])
             for w in self.admissible_args(r.P[x]):
